@@ -125,7 +125,13 @@ def fp_c03(score):
         dirs = []
         for o in part.iter_all(S.Direction, include_subclasses=True):
             wedge = bool(getattr(o, "wedge", False))
-            dirs.append([type(o).__name__, o.raw_text or o.text, o.start.t, (o.end.t if o.end else None) if wedge else "-"])
+            written = o.raw_text or o.text
+            # what the words mean: for an object made through the API from the word itself the musical meaning of the
+            # word, for an object that came out of the direction parser (importer) the meaning the parser gave it
+            meaning = "-"
+            if written in gen.WORD_MEANING and not wedge:
+                meaning = o.text if o.raw_text is not None else gen.WORD_MEANING[written][1]
+            dirs.append([type(o).__name__, written, o.start.t, (o.end.t if o.end else None) if wedge else "-", meaning])
         p["directions"] = sorted(dirs, key=lambda d: json.dumps(d))
         p["tempo"] = sorted([o.start.t, o.bpm, o.unit or "q"] for o in part.iter_all(S.Tempo))
         p["repeats"] = sorted([o.start.t if o.start else None, o.end.t if o.end else None] for o in part.iter_all(S.Repeat))
@@ -470,6 +476,16 @@ def execute(case, keep_log=False):
                     else:
                         for site, msg in fp_diff(want_fp, fp_c03(loaded)):
                             res.violation("R1-roundtrip", "load", msg, site=site)
+                        if not res.violations:
+                            # the sounding pitch a loaded note reports is the one its spelling denotes (B# above, Cb below)
+                            for p_ in loaded.parts:
+                                for n_ in p_.iter_all(S.Note, include_subclasses=True):
+                                    w_ = gen.midi_pitch(n_.step, n_.alter or 0, n_.octave)
+                                    if int(n_.midi_pitch) != w_:
+                                        res.violation("R5-pitch", "load", "loaded note %s%+d octave %d reports MIDI pitch %d, its spelling denotes %d" % (n_.step, n_.alter or 0, n_.octave, int(n_.midi_pitch), w_), site="spelling")
+                                        break
+                                if res.violations:
+                                    break
                         if kn.get("forced_ids") and not res.violations and not faulted:
                             # a score obtained from the importer with force_note_ids=True (new ids for every note and
                             # rest) is a score like any other: saved and loaded again it keeps those ids
